@@ -380,6 +380,11 @@ class Inliner:
         if isinstance(f, ast.Name) and f.id in self.helpers:
             fn, body = self.helpers[f.id]
             return fn, body, None
+        if isinstance(f, ast.Attribute) and isinstance(f.value, ast.Name) and (f.value.id, f.attr) in self.methods:
+            # `ClassName.m(...)` naming the class itself: a new static method (nothing is bound), wherever the call stands
+            fn, body = self.methods[(f.value.id, f.attr)]
+            if [ast.unparse(d) for d in fn.decorator_list] == ["staticmethod"]:
+                return fn, body, None
         if isinstance(f, ast.Attribute) and isinstance(f.value, ast.Name) and self.cls_stack:
             cname, sname = self.cls_stack[-1][0], self.cls_stack[-1][1]
             if sname is not None and f.value.id == sname and (cname, f.attr) in self.methods:
